@@ -159,7 +159,8 @@ class Spec(unit.UnitSpec):
                    "the `regex` crate is trusted only through the differential; its Unicode `\\d` is modelled as ASCII digits "
                    "(a non-ASCII digit can only lead to Err, as u64::from_str rejects it)",
                    "f64::from_str is modelled on the decimal grammar [+-]?digits[.digits] / [+-]?.digits only (no exponents, "
-                   "inf, nan); the differential converts with Lean Float.ofScientific and compares bit patterns",
+                   "inf, nan); the differential converts with Lean Float.ofScientific and compares bit patterns; nan / inf literals are sent "
+                   "only through set_from_string(\"nursery\", …), where they must be rejected by validation (same outcome as not parsing)",
                    "machine facts (number of CPUs, default threads, default heap size, perf features, OS) are read from the "
                    "linked crate each run (`opts env`) and passed to the model",
                    "environment variables (read_env_var_settings) are not exercised"]
@@ -200,6 +201,13 @@ class Spec(unit.UnitSpec):
                 if rng.random() < 0.4:
                     val = mutate(rng, val)
                 val = tame(val)
+                if r < 0.55 and name == "nursery" and rng.random() < 0.2:
+                    # f64::from_str also accepts nan / inf / infinity (any case, signed): such a proportion parses and must
+                    # then be REJECTED by validation — the call returns false and the option keeps its value (for the
+                    # model, whose grammar has no such literal, the value simply does not parse: the same outcome)
+                    sp = lambda: rng.choice(["NaN", "nan", "NAN", "inf", "-inf", "+inf", "infinity", "-Infinity", "NaN"])
+                    a, b = rng.choice([(sp(), dec_str(rng)), (dec_str(rng), sp()), (sp(), sp()), ("_", sp()), (sp(), "_")])
+                    val = f"ProportionalBounded:{a},{b}"
                 if r < 0.55:
                     key = name
                     if rng.random() < 0.08:
@@ -327,6 +335,15 @@ class Spec(unit.UnitSpec):
                             bad.append(("opts:trigger-grammar", f"gc_trigger={val!r}: set returned {res}, documented grammar+validation says {valid}"))
                     if res == "panic":
                         bad.append(("opts:set-panicked", f"set_from_string({key!r}, {val!r}) panicked"))
+                    if key == "nursery" and res == "true":
+                        # whatever was accepted must satisfy the documented validation: 0 < min <= max <= 1 for proportions
+                        import re as _re, struct as _st
+                        m = _re.search(r"nursery=Prop\(0x([0-9a-f]+);0x([0-9a-f]+)\)", dump)
+                        if m:
+                            lo, hi = (_st.unpack("<d", int(h, 16).to_bytes(8, "little"))[0] for h in m.groups())
+                            if not (0.0 < lo <= hi <= 1.0):
+                                bad.append(("opts:nursery-invalid-accepted", f"set_from_string('nursery', {val!r}) returned true and stored the "
+                                                                             f"proportions ({lo}, {hi}): validation demands 0 < min <= max <= 1"))
                 prev = dump
             elif kind == "trigger" and len(t) == 3:
                 s = unx(t[2])
